@@ -26,6 +26,7 @@ func newCompiler(pretty, semi bool, indent int) *compiler.Compiler {
 // precedence) and parsing the text gives a tree of the same shape, and
 // compiling the re-parsed tree reproduces the text byte for byte (C03).
 func ZZH3RoundTrip() {
+	priorJob()
 	g := &TGen{Budget: sym.Param("budget", 2), Funcs: sym.Param("funcs", 1) == 1}
 	prog := g.Program()
 	pretty := sym.Bool("pretty")
